@@ -306,6 +306,7 @@ class Gen:
         self.unit = None
         self.constvals = {}
         self.vac_fns = []
+        self.consts_done = {}
 
     def emit(self, text, origin, fn=None):
         for k, line in enumerate(text.split('\n')):
@@ -396,7 +397,11 @@ class Gen:
                     raise GenError('consts outside impl')
                 src, it, _ = impl
                 names = src.members(it, 'const') if d[1:] == ['*'] else d[1:]
+                done = self.consts_done.setdefault(id(it), set()) if False else self.consts_done.setdefault((src.path, it.name), set())
                 for nme in names:
+                    if nme in done:
+                        continue
+                    done.add(nme)
                     self.do_const(src, it, nme, None)
                 i += 1
             elif cmd == 'const':
@@ -406,6 +411,7 @@ class Gen:
                 ens = s.split(' ensures ', 1)[1] if ' ensures ' in s else None
                 if d[2:] == ['bytes']:
                     ens = 'BYTES'
+                self.consts_done.setdefault((src.path, it.name), set()).add(d[1])
                 self.do_const(src, it, d[1], ens)
                 i += 1
             elif cmd == 'lemma':
